@@ -180,6 +180,26 @@ theorem C17_mnemonic_generated (k : Kind) (m : Text) (v : Nat) (h : (m, v) ∈ t
   rw [C17_parse_eq]
   exact parseWith_mnemonic _ _ _ _ (C17_tables_distinct k) (C17_tables_upper k) _ _ h s hs
 
+/-! ### 3b. acceptance, exactly (what the model says Rust's `u16::from_str` and the parsers accept) -/
+
+/-- `u16::from_str` as modelled: optional `+`, at least one ASCII digit, nothing else, value ≤ 65535
+    (leading zeros fine) -/
+theorem C17_parseU16_iff (s : Text) (v : Nat) :
+    parseU16 s = some v ↔
+      ∃ ds, (s = ds ∨ s = 43 :: ds) ∧ ds ≠ [] ∧ (∀ c ∈ ds, isDigit c = true) ∧ decValue ds = v ∧ v ≤ 65535 :=
+  parseU16_iff s v
+
+/-- every parser accepts exactly (a) the mnemonics of its table(s) in any ASCII case and (b) the
+    word TYPE / CLASS in any case followed by what `u16::from_str` accepts — for arbitrary octet
+    strings (non-ASCII input included) -/
+theorem C17_parse_ok_iff (k : Kind) (t : Text) (v : Nat) :
+    parse k t = .ok v ↔
+      (∃ m, (m, v) ∈ tableOf k ∧ t.map lowerU8 = m.map lowerU8) ∨
+      (∃ p s, t = p ++ s ∧ p.map lowerU8 = (wordOf k).map lowerU8 ∧ parseU16 s = some v) := by
+  rw [C17_parse_eq]
+  exact parseWith_ok_iff _ _ _ (C17_shape.1 k) (C17_tables_no_word k) (C17_tables_distinct k)
+    (C17_tables_upper k) t v
+
 /-! ### 4. Opcode / RCODE conversions -/
 
 /-- `Opcode::try_from(x: u8)` succeeds exactly on the 4-bit values, and keeps the value. -/
@@ -280,6 +300,13 @@ theorem C17_presents_unique (k : Kind) (t : Text) (v v' : Nat) (h : Presents k t
       rw [this.2] at hd
       exact isDecimal_unique hd hd'
 
+/-! ### 8. the oracle of the correspondence check is the specification -/
+
+/-- the executable `specParse` (spec column of `cparse` / `cpres`) returns `v` exactly for the
+    texts that present `v` -/
+theorem C17_oracle_is_spec (k : Kind) (t : Text) (v : Nat) : specParse k t = some v ↔ Presents k t v :=
+  specParse_iff k t v
+
 /-! ### non-vacuity -/
 
 example : typeDisplay 65280 = bytesOf "TYPE65280" := by decide +kernel
@@ -288,6 +315,9 @@ example : typeFromStr (bytesOf "TYPE65280") = .ok 65280 := by decide +kernel
 example : classFromStr (bytesOf "cLaSs+007") = .ok 7 := by decide +kernel
 example : typeFromStr (bytesOf "TYPE65536") = .err .BadValue := by decide +kernel
 example : typeFromStr (bytesOf "TYP€") = .err .Unknown := by decide +kernel
+example : parseU16 (bytesOf "+0065") = some 65 := by decide +kernel
+example : parseU16 (bytesOf "65536") = none := by decide +kernel
+example : parseU16 (bytesOf "-5") = none := by decide +kernel
 example : Presents .qtype (bytesOf "tYpE252") 252 :=
   .generic (p := bytesOf "tYpE") (by decide +kernel)
     (.snoc 2 (by omega) (by omega) (.snoc 5 (by omega) (by omega) (.digit 2 (by omega)))) (by omega)
